@@ -145,6 +145,7 @@ macro_rules! c03_triangular_class {
 //@ assumes: libm::sqrtf contract; known finding triangular_f32_range_overflow excluded
 c03_triangular_class!(c03_triangular_class_f32, f32, 1e30, 1.8e19);
 //@ id: c03_triangular_class_f64
+//@ besteffort: yes
 //@ prop: C03
 //@ tier: thorough
 //@ cap: 600
